@@ -211,8 +211,25 @@ func (d *db) rebuildLogAndIndex(logNum fileNum) (err error) {
 			return err
 		}
 	}
+	// the log may hold records that were never fsynced by the previous process,
+	// make them durable before persisting an index that refers to them
+	if err := d.syncLog(logNum); err != nil {
+		return err
+	}
 	// save to index file
 	return d.mu.nodeStates.save(d.dirname, d.dataDir, logNum, d.opts.FS)
+}
+
+func (d *db) syncLog(logNum fileNum) (err error) {
+	fn := makeFilename(d.opts.FS, d.dirname, fileTypeLog, logNum)
+	f, err := d.opts.FS.Open(fn)
+	if err != nil {
+		return err
+	}
+	defer func() {
+		err = firstError(err, f.Close())
+	}()
+	return f.Sync()
 }
 
 func (d *db) rebuildLog(logNum fileNum) (err error) {
@@ -268,6 +285,10 @@ func (d *db) rebuildLog(logNum fileNum) (err error) {
 }
 
 func (d *db) saveIndex() error {
+	// the index must never reference log records that are not durable yet
+	if err := d.mu.logFile.Sync(); err != nil {
+		return err
+	}
 	return d.mu.nodeStates.save(d.dirname, d.dataDir, d.mu.logNum, d.opts.FS)
 }
 
